@@ -974,6 +974,10 @@ def _mask(sig, num_args, hide_args, hide_kwargs,
     _remove_from_src(src, consumed_names)
 
     partial_mode = partial_obj is not None
+    # names a keyword absorbed by **kwargs cannot be displayed under,
+    # whatever order the keywords come in
+    reserved_names = set(_pnames(posargs))
+    reserved_names.update(p.name for p in (varargs, varkwargs) if p)
 
     for kwarg_name in named_args:
         if kwarg_name in consumed_names and not (
@@ -1010,9 +1014,8 @@ def _mask(sig, num_args, hide_args, hide_kwargs,
                 'Named parameter {0!r} not found in signature: {1}'
                 .format(kwarg_name, sig))
         elif partial_mode and kwarg_name.isidentifier() \
-                and not keyword.iskeyword(kwarg_name) and not any(
-                p.name == kwarg_name
-                for p in posargs + [varargs, varkwargs] if p):
+                and not keyword.iskeyword(kwarg_name) \
+                and kwarg_name not in reserved_names:
             kwoargs[kwarg_name] = UpgradedParameter(
                 kwarg_name, _util.funcsigs.Parameter.KEYWORD_ONLY,
                 default=named_args[kwarg_name])
